@@ -43,6 +43,8 @@ if TYPE_CHECKING:
 
     from numpy import ndarray
 
+    from gemseo.typing import StrKeyMapping
+
 
 class _ProcessFlow(BaseProcessFlow):
     """The process flow."""
@@ -118,6 +120,7 @@ class MDOChain(ProcessDiscipline):
         self,
         chain_outputs: Iterable[str],
         discipline: Discipline,
+        input_data: StrKeyMapping | None = None,
     ) -> None:
         """Chain the derivatives with a new discipline in the chain in reverse mode.
 
@@ -141,12 +144,16 @@ class MDOChain(ProcessDiscipline):
         Args:
             discipline: The new discipline to compose in the chain.
             chain_outputs: The outputs to lineariza.
+            input_data: The input data at which to linearize the discipline,
+                with which it has been executed.
+                If ``None``, use its current input data.
         """
         # TODO : only linearize wrt needed inputs/inputs
         # use coupling_structure graph path for that
-        last_cached = discipline.io.get_input_data()
+        if input_data is None:
+            input_data = discipline.io.get_input_data()
         # The graph traversal algorithm avoid to compute unnecessary Jacobians
-        discipline.linearize(last_cached, execute=False, compute_all_jacobians=False)
+        discipline.linearize(input_data, execute=False, compute_all_jacobians=False)
 
         for output_name in chain_outputs:
             if output_name in self.jac:
@@ -223,12 +230,31 @@ class MDOChain(ProcessDiscipline):
     ) -> None:
         self._compute_diff_in_outs(input_names, output_names)
 
+        # A discipline is linearized at the input data it receives
+        # when the chain is executed from its current input data.
+        # These input data are computed again from the ones of the chain
+        # rather than taken from the current data of the discipline because
+        # the latter are not the former
+        # when the discipline overwrites some of its inputs
+        # or when the output data of the chain have been loaded from its cache
+        # after the disciplines have been executed from other input data.
+        # The executions are almost free
+        # when the disciplines have these input data in their caches.
+        data = self.io.get_input_data()
+        disciplines_input_data = []
+        for discipline in self.disciplines:
+            discipline_input_data = discipline.io.prepare_input_data(data)
+            disciplines_input_data.append(discipline_input_data)
+            data.update(discipline.execute(discipline_input_data))
+
         # Reverse mode, from the last discipline to the first one:
         # the Jacobian of an output is initialized
         # with a copy of the one of the last discipline that computes it.
         self.jac = {}
-        for discipline in self.disciplines[::-1]:
-            self.reverse_chain_rule(output_names, discipline)
+        for discipline, discipline_input_data in zip(
+            self.disciplines[::-1], disciplines_input_data[::-1]
+        ):
+            self.reverse_chain_rule(output_names, discipline, discipline_input_data)
 
         # Remove differentiations that should not be there,
         # because inputs are not inputs of the chain
